@@ -215,6 +215,7 @@ pub struct Report {
   pub locker_calls: Vec<(u64, LockerCall)>,
   pub reports: Vec<(u64, ReportEvent)>,
   pub npm_calls: Vec<Vec<String>>,
+  pub npm_outcomes: Vec<(Vec<String>, Vec<bool>, bool)>,
   pub stats: SchedStats,
   pub faults_fired: BTreeMap<&'static str, u64>,
   pub order_sig: u64,
@@ -291,10 +292,12 @@ pub fn run_op_with(
     seq: sim.seq.clone(),
   };
   let npm_calls = Rc::new(RefCell::new(Vec::new()));
+  let npm_outcomes = Rc::new(RefCell::new(Vec::new()));
   let npm = SimNpm {
     sim: sim.clone(),
     cfg: world.npm.clone(),
     calls: npm_calls.clone(),
+    outcomes: npm_outcomes.clone(),
     known_reqs: session.npm_known_reqs.clone(),
   };
   let reporter = SimReporter {
@@ -394,6 +397,7 @@ pub fn run_op_with(
     locker_calls: std::mem::take(&mut *locker_calls.borrow_mut()),
     reports: std::mem::take(&mut *reporter.events.lock().unwrap()),
     npm_calls: std::mem::take(&mut *npm_calls.borrow_mut()),
+    npm_outcomes: std::mem::take(&mut *npm_outcomes.borrow_mut()),
     stats: sim.stats(),
     faults_fired: log.faults_fired,
     order_sig: sim.order_signature(),
